@@ -426,6 +426,17 @@ def setLimits (t : Tbl) (a b : Option Int) : Tbl :=
   { t with fmt := { t.fmt with cols := t.fmt.cols.map fun c => { c with width := Option.none },
                                limF := a, limL := b, anySkipped := Option.none } }
 
+/-- the columns standing at the given places (taken modulo the number of columns), in the order asked for:
+a column may be dropped, repeated, moved -/
+def pickCols (cols : List Col) (idxs : List Nat) : List Col :=
+  idxs.filterMap fun i => cols[i % cols.length]?
+
+/-- A columns-only format string made of the table's OWN column descriptions, as `str(table.fmt)` reports
+them now — `str(table.fmt).split(';')[0].split(',')[i]` for each `i` asked for, joined by `,` — either
+verbatim (with the `(width)` suffix of a printed ranged column) or `plain` (that suffix left out). -/
+def subFmtStr (f : Fmt) (idxs : List Nat) (plain : Bool) : List Char :=
+  colsToStr ((pickCols f.cols idxs).map fun c => if plain then { c with width := Option.none } else c)
+
 /-- a column given as an object: `ReprColumn(field, fmt_modifier, break_by, min_width, max_width)` -/
 structure ColSpec where
   fieldName : List Char
